@@ -35,6 +35,7 @@ ASSUMPTIONS = [
 ]
 MIN_NONTRIVIAL_FRACTION = 0.3
 RULE += " Added after the seeded rounds: " + 'A case may reach its electorate through a history (`hist`: add_agent / remove_agent / set_agent_weight / set_strategy with earlier votes and statistics calls) and must then decide like a fresh colony with the same electorate; S9 re-seats the voters in another order (exact-rational guard against float near-ties); stub exceptions are drawn from 16 exception types.'
+RULE += " Voters whose PERMIT reply cannot be converted into a ballot (confidence 'high' / None) are failed voters; 1/25 of the histories cast 1001 earlier votes (bound of the vote history)."
 
 # BADCONF / BADCONF_NONE: the voter answers PERMIT but its reply cannot be converted into a ballot (confidence "high" / None): a failed voter
 KINDS = ["PERMIT", "EXECUTE", "BLOCK", "UNKNOWN", "DEFER", "FAILURE", "RAISE", "BADCONF", "BADCONF_NONE"]
@@ -68,7 +69,8 @@ def _case(draw):
     hist = None
     if draw(st.integers(0, 2)) == 0:
         hist = {"initial": draw(st.integers(0, n)), "pre_vote": draw(st.booleans()), "pre_stats": draw(st.booleans()), "extra": draw(st.booleans()),
-                "weights_late": draw(st.booleans()), "detour": None if emergency else draw(st.sampled_from([None, None, 0, 2, 6]))}
+                "weights_late": draw(st.booleans()), "detour": None if emergency else draw(st.sampled_from([None, None, 0, 2, 6])),
+                "pre_votes": draw(st.sampled_from([1] * 24 + [1001]))}
     return {"emergency": emergency, "strategy": strat, "threshold": thr, "min_voters": mv, "voters": voters, "hist": hist, "exc": draw(st.integers(0, 11))}
 
 
@@ -149,7 +151,8 @@ def _run(case, voters, hist=None):
         prof = q.add_agent("extra", weight=1.0)
         prof.agent = _Stub("extra", "PERMIT", 1)
     if hist.get("pre_vote"):
-        q.run_vote("warm-up")
+        for _k in range(hist.get("pre_votes", 1)):       # > 1000 earlier votes cross the bound of the vote history
+            q.run_vote("warm-up")
     if hist.get("pre_stats"):
         q.get_statistics()
         q.get_agent_rankings()
